@@ -7,7 +7,7 @@ import sys
 
 prop, variant, name, needs = sys.argv[1], sys.argv[2], sys.argv[3], sys.argv[4]
 summary = sys.argv[5] if len(sys.argv) > 5 else ''
-src = '/tmp/seedout/%s' % prop
+src = os.path.join(os.environ.get('SEED_SRC', '/tmp/seedout'), prop)
 dst = '/verif/seeded/%s-%s' % (prop, name)
 os.makedirs(dst, exist_ok=True)
 shutil.copy(os.path.join(src, '%s.diff' % variant), os.path.join(dst, 'patch.diff'))
